@@ -240,11 +240,14 @@ async fn run_case(start: bool, groups: Vec<Vec<Call>>, sched: Vec<usize>) -> Str
                             // frames fed meanwhile can address the stream
                             break match s.open_stream().await {
                                 Ok((st, rx)) => {
-                                    assert_eq!(sh2.lock().unwrap().sids.get(&i).copied(), Some(st.id()));
+                                    // ids are handed out one by one in registration order: anything else (two streams
+                                    // with one id, a skipped id) is reported as the outcome of this call
+                                    let predicted = sh2.lock().unwrap().sids.get(&i).copied();
+                                    let same = predicted == Some(st.id());
                                     stream = Some(st);
                                     synack_rx = Some(rx);
                                     verdict_taken = None;
-                                    "ok"
+                                    if same { "ok" } else { "stream-id-not-sequential" }
                                 }
                                 Err(e) => {
                                     // the id was allocated and registered before the SYN failed
